@@ -610,7 +610,7 @@ def _pentapy_solver(ab, y, check_output=False, pentapy_solver=2):
     output = _pentapy_solve(ab, y, is_flat=True, index_row_wise=True, solver=pentapy_solver)
     # check the values themselves since the dot product of large finite values can overflow
     if check_output and not np.isfinite(output).all():
-        raise np.linalg.LinAlgError('non-finite value encountered in pentapy solver output')
+        raise np.linalg.LinAlgError('non-finite value encountered in solver output')
 
     return output
 
@@ -849,8 +849,8 @@ class PenalizedSystem:
             :func:`scipy.linalg.solve_banded`. Default is None, which uses
             (``len(lhs) // 2``, ``len(lhs) // 2``).
         check_output : bool, optional
-            If True, will check the output for non-finite values when using
-            :func:`._pentapy_solver`. Default is False.
+            If True, will check the output for non-finite values and raise an exception
+            if any are found, so that all solvers behave the same. Default is False.
 
         Returns
         -------
@@ -875,6 +875,9 @@ class PenalizedSystem:
                 l_and_u, lhs, rhs, overwrite_ab=overwrite_ab,
                 overwrite_b=overwrite_b, check_finite=check_finite
             )
+        if check_output and not self.using_pentapy and not np.isfinite(output).all():
+            # same outcome as the pentapy solver for a non-finite solution
+            raise np.linalg.LinAlgError('non-finite value encountered in solver output')
 
         return output
 
